@@ -3,6 +3,7 @@
    Model: coq/theories/Column.v (the per-column bodies of pybufrkit's
    process_*_compressed), over the bit model Bits.v. *)
 From PBK Require Import Base Bits BitsProofs Column ColumnProofs.
+From PBK Require Import Descr Walk Coder Decode Encode RoundTrip DecodeC EncodeC EncodeCG RoundTripC TransparentC RoundTripCExamples.
 
 (* ---- nbits_for_uint: the width the encoder chooses for the increments ------- *)
 (* for x >= 1 it is the least width >= 2 whose all-ones pattern lies above x *)
@@ -263,3 +264,113 @@ Theorem C05_dec_col_str_suffix : forall nb n r vs r' t,
   dec_col_str nb n r = Ok (vs, r') -> dec_col_str nb n (r ++ t) = Ok (vs, r' ++ t).
 Proof. exact dec_col_str_suffix. Qed.
 Print Assumptions C05_dec_col_str_suffix.
+
+(* =====================================================================================
+   WHOLE TEMPLATES, compressed data: the compressed walk of the decoder inverts the
+   compressed walk of the encoder (the column theorems above, lifted through the
+   producer/consumer simulation of the walker to ANY template: every operator,
+   bitmaps, nested replication, any number of subsets).
+   ===================================================================================== *)
+
+(* one column theorem for every element width 1..64: col_dom_any w = col_dom_num w
+   (2 <= w <= 64) or, for w = 1, values 0/1 with missing entries allowed; the view
+   is raw_view except for the one-bit column that is missing throughout, which
+   reads back as 1 (D18) *)
+Theorem C05_col_roundtrip_any : forall w ae raws o t,
+  col_dom_any w ae raws = true ->
+  exists e, enc_col_num w ae raws o = Ok (o ++ e) /\
+            dec_col_num w (length raws) (e ++ t) = Ok (num_view w raws, t).
+Proof. exact col_roundtrip_any. Qed.
+Print Assumptions C05_col_roundtrip_any.
+
+Example C05_col_dom_any_nonvacuous :
+  col_dom_any 12 false [Some 2730; Some 2800; None]%Z = true /\
+  col_dom_any 1 false [Some 1; None; Some 0]%Z = true /\
+  col_dom_any 1 true [None; None]%Z = true /\
+  num_view 1 [None; None] = [Some 1; Some 1]%N /\
+  col_dom_any 4 false [Some 15; Some 3]%Z = false.
+Proof. exact exc_col_dom. Qed.
+
+(* Whenever the compressed ghost encoder (EncodeCG.v: EncodeC.encode_compressed run
+   with a ghost that records, per column, the values a reader obtains; it refuses
+   only columns outside col_dom_any / col_dom_str, code/flag values the decoder's
+   second look would turn into missing, and replication factors / bitmaps that read
+   back differently) accepts the values, decoding the bits it wrote, followed by
+   any further bits t, yields the same descriptors and links for every subset,
+   exactly the ghost values, and leaves exactly t. *)
+Theorem C05_decode_encode_compressed : forall T vals outs w g t,
+  encode_compressed_ghost T vals = Ok (outs, w, g) ->
+  decode_compressed T (length vals) (w ++ t) = Ok (outs, g, t).
+Proof. exact decode_encode_compressed. Qed.
+Print Assumptions C05_decode_encode_compressed.
+
+(* the ghost encoder writes exactly what the compressed encoder writes *)
+Theorem C05_encode_compressed_ghost_is_encode : forall T vals outs w g,
+  encode_compressed_ghost T vals = Ok (outs, w, g) -> encode_compressed T vals = Ok (outs, w).
+Proof. exact encode_compressed_ghost_is_encode. Qed.
+Print Assumptions C05_encode_compressed_ghost_is_encode.
+
+Example C05_compressed_nonvacuous :
+  exists outs w, encode_compressed_ghost exc_T exc_vals = Ok (outs, w, exc_ghost) /\
+                 length w = 358%nat /\ length outs = 3%nat.
+Proof. exact exc_ghost_accepts. Qed.
+
+(* bits after a compressed data section never influence its decoding *)
+Theorem C05_decode_compressed_suffix_independent : forall T n b t outs vals rest,
+  decode_compressed T n b = Ok (outs, vals, rest) ->
+  decode_compressed T n (b ++ t) = Ok (outs, vals, rest ++ t).
+Proof. exact decode_compressed_suffix_independent. Qed.
+Print Assumptions C05_decode_compressed_suffix_independent.
+
+Example C05_decode_compressed_nonvacuous :
+  exists outs w, encode_compressed exc_T exc_vals = Ok (outs, w) /\
+                 decode_compressed exc_T 3 w = Ok (outs, exc_ghost, []).
+Proof. exact exc_decode_direct. Qed.
+
+(* =====================================================================================
+   TRANSPARENCY for whole templates.  encode_compressed_ghost_strict is the compressed
+   ghost encoder refusing in addition (a) a one-bit element missing in some but not all
+   subsets (D18), (b) an "all equal" numeric column whose entries are equal as numbers
+   but not identical (3 and 3.0: only values[0] is scaled), (c) a bitmap that differs
+   between subsets (the compressed coder uses the first subset's).  Whenever it and the
+   uncompressed ghost encoder (C03) both accept a value list, for ANY template:
+   the encoders write w (compressed) and w' (uncompressed), and decoding either,
+   followed by any further bits, yields the same descriptors, links and values.
+   ===================================================================================== *)
+Theorem C05_strict_ghost_is_ghost : forall T vals r,
+  encode_compressed_ghost_strict T vals = Ok r -> encode_compressed_ghost T vals = Ok r.
+Proof. exact strict_ghost_is_ghost. Qed.
+Print Assumptions C05_strict_ghost_is_ghost.
+
+Theorem C05_ghosts_agree : forall T vals outs w g outs' w' g',
+  encode_compressed_ghost_strict T vals = Ok (outs, w, g) ->
+  encode_ghost T vals = Ok (outs', w', g') ->
+  outs' = outs /\ g' = g.
+Proof. exact ghosts_agree. Qed.
+Print Assumptions C05_ghosts_agree.
+
+Theorem C05_compression_transparent : forall T vals outs w g outs' w' g' t t',
+  encode_compressed_ghost_strict T vals = Ok (outs, w, g) ->
+  encode_ghost T vals = Ok (outs', w', g') ->
+  encode_compressed T vals = Ok (outs, w) /\
+  encode_uncompressed T vals = Ok (outs, w') /\
+  decode_compressed T (length vals) (w ++ t) = Ok (outs, g, t) /\
+  decode_uncompressed T (length vals) (w' ++ t') = Ok (outs, g, t').
+Proof. exact compression_transparent. Qed.
+Print Assumptions C05_compression_transparent.
+
+Example C05_transparent_nonvacuous :
+  exists outs w w',
+    encode_compressed_ghost_strict exc_T exc_vals_t = Ok (outs, w, exc_ghost_t) /\
+    encode_ghost exc_T exc_vals_t = Ok (outs, w', exc_ghost_t) /\
+    length w = 358%nat /\ length w' = 336%nat.
+Proof. exact exc_both_accept. Qed.
+
+(* without restriction (a) the statement is false (D18, whole-template form): both plain
+   ghost encoders accept, the readers disagree on the one-bit entry *)
+Theorem C05_onebit_template_refuted :
+  exists T vals outs w g w' g',
+    encode_compressed_ghost T vals = Ok (outs, w, g) /\
+    encode_ghost T vals = Ok (outs, w', g') /\ g <> g'.
+Proof. exact onebit_template_refuted. Qed.
+Print Assumptions C05_onebit_template_refuted.
